@@ -41,7 +41,10 @@ def generate(rng, tier):
         ops = []
         _gap(rng, ops)
         for j in range(rng.randint(1, 4)):
-            ops.append({"op": "put", "on": "Q", "v": p * 100 + j})
+            value = p * 100 + j
+            if value in (0, 1, 101) and rng.random() < 0.5:
+                value = {0: 0, 1: None, 101: ""}[value]      # falsy and None are legal messages
+            ops.append({"op": "put", "on": "Q", "v": value})
             _gap(rng, ops)
         actors.append({"name": "p%d" % p, "ops": ops})
     for c in range(n_cons):
@@ -109,6 +112,7 @@ def check(rec):
     received = {}        # value -> actor
     waiting = {}         # consumer -> tick at which it began to wait
     pending_put = {}     # actor -> value of its put in progress
+    suspects = {}        # optional item -> (time, next time, receivers waiting over it)
     ended, excs, started = set(), {}, set()
     last_time = None
     for ev in rec.trace:
@@ -119,6 +123,12 @@ def check(rec):
                 bad("receiver-left-waiting",
                     "clock moved from %r to %r with items %r buffered while %r wait(s)"
                     % (last_time, now, firm, sorted(waiting)))
+            # an item of a torn-down put may be stored or not; if it turns out to be delivered
+            # later it *was* stored, and nobody may have been left waiting over it
+            live = sorted(w for w, t in waiting.items() if not excused(w, tick))
+            for value, opt in buffer:
+                if opt and live and value not in suspects:
+                    suspects[value] = (last_time, now, live)
         last_time = now
         states.add((min(len(buffer), 3), min(len(waiting), 3), closed,
                     any(t <= tick for v in faulted.values() for t, _ in v)))
@@ -165,6 +175,12 @@ def check(rec):
                 bad("duplicate", "%r delivered to %s and again to %s"
                     % (value, received[value], actor))
             received[value] = actor
+            if value in suspects:
+                t0, t1, who = suspects.pop(value)
+                bad("receiver-left-waiting",
+                    "item %r of a torn-down put was stored after all (%s received it at t=%r) but "
+                    "the clock had moved from %r to %r while %r waited"
+                    % (value, actor, now, t0, t1, who))
             while buffer and buffer[0][0] != value and buffer[0][1]:
                 buffer.pop(0)
             if not buffer:
